@@ -80,13 +80,42 @@ def _pkgdir():
     return os.path.dirname(os.path.abspath(jinja2.__file__)) + os.sep
 
 
+def _quoted_word(m):
+    import keyword
+
+    w = m.group(1)
+    # 'break', 'else', ... name the construct (mechanism); any other quoted
+    # word is an identifier taken from the input
+    return m.group(0) if keyword.iskeyword(w) else "ID"
+
+
 def _norm_msg(msg):
+    """Message with everything that can vary with the input removed:
+    identifiers, characters, code points, numbers, positions."""
     msg = str(msg).split("\n")[0]
     msg = msg.split(":")[0] if msg.startswith("keyword argument repeated") else msg
-    msg = re.sub(r"'[lt]_\w+'", "ID", msg)
     msg = re.sub(r"\(<[^>]*>, line \d+\)", "", msg)
+    msg = re.sub(r"invalid character '.' \(U\+[0-9A-Fa-f]+\)", "invalid character CH", msg)
+    msg = re.sub(r"U\+[0-9A-Fa-f]{4,8}", "U+X", msg)
+    msg = re.sub(r"'(\w+)'", _quoted_word, msg)
     msg = re.sub(r"\d+", "N", msg)
     return msg.strip()[:70]
+
+
+def _near_token(text, offset):
+    import keyword
+
+    m = re.match(r"\w+|\S", text[max(offset - 1, 0):])
+    tok = m.group() if m else "?"
+    if re.match(r"[lt]_\d", tok):
+        return "ID"
+    if tok[0].isdigit():
+        return "NUM"
+    if (tok[0].isalpha() or tok[0] == "_") and not keyword.iskeyword(tok):
+        return "NAME"       # an identifier copied from the input
+    if not tok.isascii():
+        return "CH"
+    return tok
 
 
 def mechanism(exc):
@@ -94,23 +123,24 @@ def mechanism(exc):
     pkg = _pkgdir()
     tb = exc.__traceback__
     where = "?"
+    files = []
     while tb is not None:
         co = tb.tb_frame.f_code
         fn = os.path.abspath(co.co_filename)
         if fn.startswith(pkg):
             where = f"{os.path.basename(fn)}:{co.co_name}"
+            files.append(os.path.basename(fn))
         tb = tb.tb_next
+    if isinstance(exc, RecursionError):
+        # the frame that happens to hit the limit varies with the input; the
+        # mechanism is the recursive module(s) at the bottom of the stack
+        return "RecursionError@" + "+".join(sorted(set(files[-60:]))) if files \
+            else "RecursionError@?"
     key = f"{type(exc).__name__}@{where}"
     if isinstance(exc, SyntaxError):
         key += ":" + _norm_msg(exc.msg)
         if exc.msg.startswith("invalid syntax") and exc.text and exc.offset:
-            m = re.match(r"\w+|\S", exc.text[max(exc.offset - 1, 0):])
-            tok = m.group() if m else "?"
-            if re.match(r"[lt]_\d", tok):
-                tok = "ID"
-            elif tok[0].isdigit():
-                tok = "NUM"
-            key += ":near " + tok
+            key += ":near " + _near_token(exc.text, exc.offset)
     elif isinstance(exc, (ValueError, KeyError, IndexError, AssertionError, RuntimeError,
                           TypeError, AttributeError, OverflowError)):
         key += ":" + _norm_msg(re.sub(r"'[^']*'|\"[^\"]*\"|re\.compile\(.*", "<q>", str(exc)))[:40]
